@@ -192,6 +192,8 @@ def run_stream(ctx, spec, st, replay, scale, hbin, coqc_shards):
              "harness_s": round(t_h, 1), "coqc_s": round(t_c, 1), "distribution": dict(dist)}
     if profile == "race":
         stats["write_delay_shim"] = shim_note or "tools/delay_write_shim.c: one write to best_seen.json delayed by 400 ms in every case"
+    if profile == "reap":
+        stats["waitpid_delay_shim"] = shim_note or "tools/delay_write_shim.c: waitpid for one exact pid delayed by 200 ms in every case"
     return {"stats": stats, "rejections": rejections, "monitor_failures": mfails, "samples": samples}
 
 
@@ -273,6 +275,8 @@ def ops_stream(ctx, spec, st, replay, scale, hbin, coqc_shards):
              "harness_s": round(t_h, 1), "coqc_s": round(t_c, 1), "distribution": dict(dist)}
     if profile == "race":
         stats["write_delay_shim"] = shim_note or "tools/delay_write_shim.c: one write to best_seen.json delayed by 400 ms in every case"
+    if profile == "reap":
+        stats["waitpid_delay_shim"] = shim_note or "tools/delay_write_shim.c: waitpid for one exact pid delayed by 200 ms in every case"
     return {"stats": stats, "rejections": rejections, "monitor_failures": mfails, "samples": samples}
 
 
@@ -446,8 +450,8 @@ def cli_stream(ctx, spec, st, replay, scale, hbin, coqc_shards):
         master, frm, count, profile, nsh = rp["master"], rp["idx"], 1, rp["profile"], 1
     t0 = time.time()
     shim_args, shim_note = [], None
-    if profile == "race":
-        # the write-delaying shim is compiled per run; without a C compiler the cases still run, unshimmed
+    if profile in ("race", "reap"):
+        # the delaying shim is compiled per run; without a C compiler the cases still run, unshimmed
         so = os.path.join(out, "delay_write_shim.so")
         cc = subprocess.run(["cc", "-shared", "-fPIC", "-O1", "-o", so, os.path.join(ROOT, "tools", "delay_write_shim.c"), "-ldl"],
                             stdout=subprocess.PIPE, stderr=subprocess.STDOUT, text=True)
@@ -499,6 +503,8 @@ def cli_stream(ctx, spec, st, replay, scale, hbin, coqc_shards):
         o = obs.get(idx, {})
         small = {k: o.get(k) for k in ("case", "args", "code", "stdout", "stderr", "survivors", "n_children", "files", "quiet_twin")}
         base = {"stream": "cli", "master": master, "idx": idx, "profile": profile, "property": pid, "verdict": ln, "observation": small}
+        if (o.get("case") or {}).get("guess") == "bigkey":
+            base["tag"] = "guess-key-usize-max"
         if kv["acc"] != "ok" and pid in ("C16", "C15"):
             rejections.append(dict(base, kind="acceptor-rejection", how=kv["acc"]))
         if kv.get(pid) == "0":
@@ -530,6 +536,8 @@ def cli_stream(ctx, spec, st, replay, scale, hbin, coqc_shards):
              "harness_s": round(t_h, 1), "coqc_s": round(t_c, 1), "distribution": dict(dist)}
     if profile == "race":
         stats["write_delay_shim"] = shim_note or "tools/delay_write_shim.c: one write to best_seen.json delayed by 400 ms in every case"
+    if profile == "reap":
+        stats["waitpid_delay_shim"] = shim_note or "tools/delay_write_shim.c: waitpid for one exact pid delayed by 200 ms in every case"
     return {"stats": stats, "rejections": rejections, "monitor_failures": mfails, "samples": samples}
 
 
@@ -658,7 +666,8 @@ PROPS = {
         "propfile": "theories/Properties/C07.v",
         "coq_targets": ["theories/Properties/C07.vo"],
         "checkers": ["CliCheck"],
-        "streams": [{"kind": "cli", "name": "proc", "profile": "proc", "count": {"quick": 64, "thorough": 600}, "salt": 7}],
+        "streams": [{"kind": "cli", "name": "proc", "profile": "proc", "count": {"quick": 64, "thorough": 600}, "salt": 7},
+                    {"kind": "cli", "name": "reap", "profile": "reap", "count": {"quick": 24, "thorough": 200}, "salt": 71}],
         "assumptions": [
             "partial: the theorem is about the process-group life cycle model (Cli.pstep); kernel behaviour of killpg/waitpid, PID reuse, zombie reaping are outside it",
             "every evaluation future of a run has completed or been dropped when the run returns (Rust drop semantics)",
